@@ -310,3 +310,34 @@ def check_worker_timeout_path(events: List[int], lock_held: List[bool]) -> bool:
         exp += [("get-sentinel",), ("put", os.getpid())]
     # the exit is announced exactly once, last, never while a fetched task is unanswered, then the exit lock is taken
     return order == exp and exit_lock.held and log[-1] == ("acquire", "exit")
+
+
+def check_adjust_start_failure(n: int, mw: int, fail_at: int) -> bool:
+    """
+    pre: 0 <= n <= 2 and 1 <= mw <= 4 and n < mw and 0 <= fail_at <= 3
+    post: _
+    """
+    # the fail_at-th Process.start() of a top-up raises (fork: EAGAIN / ENOMEM): the error reaches the caller, and
+    # every worker that *was* started is registered - an unregistered live worker keeps eating tasks and sentinels
+    # behind the executor's back (C08: registered == running; C10: later resizes count from the table)
+    n, mw, fail_at = _conc(n, 2), _conc(mw, 4), _conc(fail_at, 3)
+    log = Log()
+    ex, ctx, lock = _mk_executor(log, n, mw)
+    ctx.fail_start_at = fail_at
+    try:
+        with lock:
+            ProcessPoolExecutor._adjust_process_count(ex)
+        raised = False
+    except OSError:
+        raised = True
+    want_fail = fail_at < mw - n
+    if raised != want_fail:
+        return False
+    started = [p for p in ctx.created if p.started]
+    for p in started:
+        if ex._processes.get(p.pid) is not p:
+            return False
+    for pid, p in ex._processes.items():
+        if pid >= 50 and not p.started:
+            return False  # nothing that never started is registered
+    return len(ex._processes) == n + len(started) and (raised or len(ex._processes) == mw)
